@@ -367,7 +367,7 @@ def expected_schedule(c, prm, version, label, secret, cr, sr, name):
     return partition(blk, maclen, klen, block_iv), block_iv > 0
 
 
-@harness("C15", "keys.installed", functions=[SE + ".generate_keys", SE + ".find_session_secrets", DEC + ".__init__", DEC + ".parse_keys",
+@harness(["C15", "C01"], "keys.installed", functions=[SE + ".generate_keys", SE + ".find_session_secrets", DEC + ".__init__", DEC + ".parse_keys",
                                              DEC + ".get_cipher_type", DEC + ".update_keys"], cases=INSTALL_CASES, timeout=20000)
 def h_installed(c, code, version, label):
     """the keys ACTUALLY INSTALLED in the connection's Decryptor after the ServerHello - for the negotiated suite, the
